@@ -196,9 +196,12 @@ func init() {
 				sysq = append(sysq, q)
 			}
 			return &harness.Plan{
-				N:      size(tier, 150000, 8000000),
-				Setup:  func(c *harness.Ctx) { hooksOn() },
-				Run:    func(c *harness.Ctx, k int) { runC10(c, sysq) },
+				N:     size(tier, 150000, 8000000),
+				Setup: func(c *harness.Ctx) { hooksOn() },
+				Run: func(c *harness.Ctx, k int) {
+					hooksAlternate(k) // key / container poison also hides a library that wrongly re-uses a recycled buffer's content: every second case runs without
+					runC10(c, sysq)
+				},
 				Finish: reportHooks,
 				Required: []string{"op:==", "op:!=", "op:<", "op:<=", "op:>", "op:>=", "op:=~", "lit:number", "lit:string", "lit:bool", "lit:null", "order:lit-left", "order:lit-right",
 					"operand:absent-root", "strict:selected-typed", "strict:mistyped-not-selected", "decode:agree-nonempty", "decode:respelled-numbers"},
